@@ -11,6 +11,13 @@ import c11
 from locks import BodyLocks
 
 
+# stages of Element::cmp that compare a key only when both operands have it, by the source of the key, with the reason why skipping is harmless
+SKIPPING_STAGES = {
+    frozenset({'item_name'}): 'both operands have the same element name at this point (stage 1), and an element type is either named or not: the mixed case does not occur',
+    frozenset({'string_value', 'character_data', 'get_sub_element'}): 'DEFINITION-REF: both operands have the same element name; the mixed case needs an incomplete BSW value and is then ordered by content',
+}
+
+
 def total_order_rules(C, P):
     """C14-SIB-total: structural conditions under which `<Element as Ord>::cmp` is a lexicographic chain of key comparisons
     (hence a total preorder): which comparison is applied may depend on each operand alone, never on a predicate that
@@ -164,8 +171,48 @@ def total_order_rules(C, P):
         ok2 = bool(sib) and not falls_through(sib[0]['some'])
         # evidence only: a stage that skips the mixed cases is a total order only if the later stages agree with it; on this tree
         # they do (both elements start with the same key element, see DESIGN.md 11.2), so this is not a verdict
-        stage_info.append({'at': ec.where(x['pos']), 'some_none_ordered': ok1, 'none_some_ordered': ok2})
+        import flow as _flow
+        bop = {'l': x['base'][0], 'p': list(x['base'][1])}
+        if bop['p'] and _re.match(r'^\.\d+$', bop['p'][0]):
+            for q, st in defs_of(ec, bop['l']):
+                if st['k'] == 'assign' and st['rv']['k'] in ('agg', 'tuple') and len(st['rv'].get('ops', [])) > int(bop['p'][0][1:]):
+                    o_ = st['rv']['ops'][int(bop['p'][0][1:])]
+                    if is_local_op(o_):
+                        bop = o_
+                    break
+        src = sorted(c for c in _flow.deep_sources(ec, bop, depth=10)[1] if not _re.search(r'^(core|std|alloc)::|^<?(std|core)::|Option<|Result<', c))
+        stage_info.append({'at': ec.where(x['pos']), 'some_none_ordered': ok1, 'none_some_ordered': ok2, 'key_source': src})
+        if not (ok1 and ok2):
+            # a stage that is skipped when only one key exists is a total order only together with an argument about the later stages:
+            # each such stage is reviewed by the source of its key
+            terms = {c.rsplit('::', 1)[-1] for c in src}
+            rev = [k for k in SKIPPING_STAGES if terms and terms <= k]
+            C.check(bool(rev), R, 'Element::cmp|skipping-stage|%s' % ('+'.join(c.rsplit('::', 1)[-1] for c in src) or '?'),
+                    'Element::cmp has a comparison stage that is applied only when BOTH operands have the key and is skipped otherwise, and the key (%s) is not one of the reviewed ones: '
+                    'pairs with a key are ordered by it, pairs without by the later stages, and nothing makes the two orders agree (a2 < a10 by key, a10 < a1b < a2 by text): the relation is not transitive, '
+                    'so the result of sort() depends on the initial order' % (', '.join(src) or 'unknown source'), ec.where(x['pos']))
     C.extra['optional_key_stages'] = stage_info
+    # ---- the value order: same-variant arms compare the payloads themselves (or an injective reviewed projection) ----
+    try:
+        cc = P.get('<CharacterData as Ord>::cmp')
+    except KeyError as e:
+        C.anchor_missing(R, str(e))
+        return
+    INJECTIVE = r'::to_str$|Deref>?::deref$|::as_str$|AsRef<.*>>?::as_ref$|Borrow<.*>>?::borrow$|::as_bytes$|::as_slice$'
+    n_cmp = 0
+    for pos, t in cc.iter_calls():
+        if not call_matches(t, r'Ord>?::cmp$|::cmp$|partial_cmp$'):
+            continue
+        n_cmp += 1
+        import flow as _flow
+        odd = set()
+        for a_ in t['args']:
+            odd |= {c for c in _flow.deep_sources(cc, a_, depth=10)[1] if not _re.search(INJECTIVE, c)}
+        C.check(not odd, R, 'CharacterData::cmp|payload-compared-as-is|%s' % ('+'.join(sorted(c.rsplit('::', 1)[-1] for c in odd)) or 'direct'),
+                'the order of character data values compares a TRANSFORMED payload (%s): two different values can compare Equal (the order is no longer consistent with ==), '
+                'so elements that differ only there are not ordered by sort() and its result depends on the initial order' % ', '.join(sorted(odd)), cc.where(pos),
+                sample={'fn': '<CharacterData as Ord>::cmp', 'compared': 'payloads or reviewed injective projections (EnumItem::to_str)'})
+    C.check(n_cmp >= 3, R, 'CharacterData::cmp|same-variant-comparisons', 'expected a payload comparison per variant, found %d' % n_cmp)
     C.ok(R, 'Element::cmp|optional-key-stages-enumerated', '%d stages with an optional key' % stages)
 
 
